@@ -603,7 +603,7 @@ impl Property for C06 {
     type Case = Case;
     const ID: &'static str = "C06";
     fn cases(tier: Tier) -> u64 {
-        tier.pick(100_000, 8_000_000)
+        tier.pick(200_000, 8_000_000)
     }
     fn strategy(_tier: Tier) -> BoxedStrategy<Case> {
         let bytes = (
